@@ -7,12 +7,19 @@ mode=seq, semaphore kinds — one real object, one operation per line:
     try            => ok | refused          (TryBorrow / ScheduleImmediately / a request: true,nil,200 | false,busy,503)
     borrow         => ok | blocked | timeout (Borrow: blocking; TimeoutLimit.Borrow: ErrTimeout)
     return         => ok | err              (Return: nil | ErrLimitReturn)
-    finish [panic] => ok | none             (let one admitted task/request end, normally or by panic)
+    finish [panic|panicerr|goexit] => ok | none   (let one admitted task/request end: return, panic with a string
+                                             value, panic with an error value, runtime.Goexit — `ExitKind`)
+    finish <panic|panicerr> held => ok report=held slot=<free|held> wait=<returns|blocked|n/a> | ok report=none
+                                            (TaskRunner: the panic report is kept waiting inside the log writer; what has
+                                             happened by then: slot given back? does Wait return?)
     probe          => free=<k>              (measured free permits)
 mode=conc, semaphore kinds — real goroutines, history stamped inside the guarded region:
-    run …          => <events> gauge=<peak> free=<k>     events: +t enter, -t exit, !t exit by panic, xt refused, et own Return failed
+    run …          => <events> gauge=<peak> free=<k>     events: +t enter, -t exit, !t exit by panic (string), #t by panic (error value), ~t by Goexit, xt refused, et own Return failed
     rogue …        => borrows=<b> returns=<r> errs=<e> free=<k>    (callers that return more than they borrowed)
+    waitprobe …    => rounds=<R> early=<E> worst=<w> busy=<b>      (TaskRunner: R rounds of schedule k <= n tasks, Wait,
+                      look at the slots at once; E rounds with a slot still taken, b refused ScheduleImmediately calls)
 kind=pool mode=seq:
+    getdpanic => dpanicked destroyed=<id>  (the destroy callback panicked for the expired head; not expired: as `get`)
     get | getw | getpanic => got <id> fresh=<0|1> destroyed=<ids|-> | wait destroyed=… (reached cond.Wait; taken out
                       again) | waiting destroyed=… (getw: stays blocked) | panicked destroyed=… (create panicked)
     put <id>|@k    => ok id=<x> [woke=<y>|woke=none]   (a waiting Get resumed and took y) ;  putnil => ok
@@ -29,6 +36,13 @@ open GoZero
 
 /-! ### sequential semaphore sections -/
 
+/-- the `how` of a `finish <how>` op as an exit kind of the guarded function. -/
+def exitOfHow : String → Option ExitKind
+  | "panic" => some .panicValue
+  | "panicerr" => some .panicError
+  | "goexit" => some .goexit
+  | _ => none
+
 def seqExpected (kind : String) (s : Sem) (op : List String) : Option (Sem × String × String) :=
   match op with
   | ["try"] =>
@@ -44,9 +58,19 @@ def seqExpected (kind : String) (s : Sem) (op : List String) : Option (Sem × St
   | ["finish"] =>
     let r := s.step .recv
     some (r.1, if r.2 = .ok then "ok" else "none", if r.2 = .ok then "finish-ok" else "finish-none")
-  | ["finish", "panic"] =>
-    let r := s.step .recv
-    some (r.1, if r.2 = .ok then "ok" else "none", if r.2 = .ok then "finish-panic-ok" else "finish-none")
+  | ["finish", how] =>
+    match exitOfHow how with
+    | none => none
+    | some _ =>
+      let r := s.step .recv
+      some (r.1, if r.2 = .ok then "ok" else "none", if r.2 = .ok then s!"finish-{how}-ok" else "finish-none")
+  | ["finish", how, "held"] =>
+    match exitOfHow how with
+    | none => none
+    | some _ =>
+      if kind ≠ "runner" then none else
+      let r := s.step .recv
+      some (r.1, if r.2 = .ok then "ok" else "none", if r.2 = .ok then s!"finish-{how}-report-held" else "finish-none")
   | ["wait"] =>
     -- TaskRunner.Wait: the wait-group count is the number of admitted, unfinished tasks
     if kind ≠ "runner" then none
@@ -78,6 +102,7 @@ def seqEvents (op : List String) (obs : List String) : Option (List SeqEv) :=
   | ["return"], ["ok", "woke=0"] => some [.retOk]
   | ["return"], ["ok", "woke=lost"] => some [.retOk]
   | ["return"], ["ok", "woke=timeout"] => some [.retOk, .refuse]
+  | ["finish", _, "held"], o :: _ => (seqEvent ["finish"] [o]).map fun e => [e]
   | ["wait"], ["returns"] => some []
   | ["wait"], ["blocked"] => some [.drained]
   | _, _ => (seqEvent op obs).map fun e => [e]
@@ -114,6 +139,20 @@ def finishThread (p : Prog) (s : St) (t : Tid) (pan : Bool) : St × Stop :=
   | none => (s, .blocked)
   | some s' => runThread p 64 s' t [pan]
 
+/-- run thread `t` (every choice `true`: the panic exit) to the row that writes the panic report. -/
+def runToReport (p : Prog) : Nat → St → Tid → St × Bool
+  | 0, s, _ => (s, false)
+  | fuel + 1, s, t =>
+    match p[s.pc t]? with
+    | none => (s, false)
+    | some r =>
+      if r.tags.contains reportTag then (s, true)
+      else if r.instr = .halt ∨ isUser r.instr then (s, false)
+      else
+        match step p s t true with
+        | none => (s, false)
+        | some s' => runToReport p fuel s' t
+
 def siteProgram : String → Option Prog
   | "limit" => some Programs.limitClient
   | "tlimit" => some Programs.timeoutLimitClient
@@ -121,6 +160,7 @@ def siteProgram : String → Option Prog
   | "maxconns" => some Programs.maxConns
   | "mr" => some Programs.executeMappers
   | "fx" => some Programs.walkLimited
+  | "barrier" => some Programs.barrierGuard
   | _ => none
 
 /-- choices that take a fresh thread of the site program into the guarded function (concurrent histories). -/
@@ -139,6 +179,7 @@ def entryChoices : String → String → Option (List Bool)
   | "runner", "try" => some [true, false]       -- not Wait; ScheduleImmediately
   | "runner", "borrow" => some [true, true]     -- not Wait; Schedule
   | "maxconns", "try" => some []
+  | "barrier", "borrow" => some []
   | _, _ => none
 
 structure IRSeq where
@@ -173,11 +214,28 @@ def IRSeq.op (kind : String) (m : IRSeq) (op : List String) : Option (IRSeq × S
       else
         let (s2, stop) := runThread m.prog 64 s1 t []
         some ({ m with st := s2, next := t + 1, holders := m.holders ++ [t] }, if stop = .user then "ok" else "model-thread-not-admitted")
-  | ["return"] | ["finish"] | ["finish", "panic"] =>
+  | ["finish", how, "held"] =>
+    -- TaskRunner: the task ends by panic, its panic report (written by `rescue.Recover` AFTER the clean-ups) is
+    -- kept waiting: the model thread is run to the row of the report; there the slot annotation and the
+    -- wait-group count say what an observer sees
+    if kind ≠ "runner" ∨ (exitOfHow how).isNone then none else
+    match m.holders with
+    | [] => some (m, "none")
+    | t :: rest =>
+      match step m.prog m.st t true with
+      | none => some (m, "model-holder-blocked")
+      | some s1 =>
+        let (s2, atReport) := runToReport m.prog 64 s1 t
+        let (s3, stop) := runThread m.prog 64 s2 t [true]
+        let rep := if how = "goexit" ∨ !atReport then "report=none"
+          else s!"report=held slot={if H m.prog (s2.pc t) then "held" else "free"} wait={if rest ≠ [] then "n/a" else if s2.wg = 0 then "returns" else "blocked"}"
+        some ({ m with st := s3, holders := rest }, if stop = .halt then s!"ok {rep}" else "model-thread-did-not-finish")
+  | ["return"] | ["finish"] | ["finish", _] =>
+    if op.length = 2 ∧ (exitOfHow (op.getD 1 "")).isNone then none else
     match m.holders with
     | [] => some (m, if op.head? = some "return" then "err" else "none")
     | t :: rest =>
-      let (s', stop) := finishThread m.prog m.st t (op = ["finish", "panic"])
+      let (s', stop) := finishThread m.prog m.st t (op.length = 2)
       match m.waiters with
       | [] => some ({ m with st := s', holders := rest }, if stop = .halt then "ok" else "model-thread-did-not-finish")
       | w :: ws =>
@@ -216,7 +274,10 @@ def runSeq (r : Report) (s : Section) (kind : String) (n : Nat) : Report := Id.r
   for l in s.lines do
     r := { r with ops := r.ops + 1 }
     let impl := joinSp l.obs
-    if impl = "leaked" ∨ impl = "stuck" then
+    -- `finish <how> held`: the first token is the outcome, the rest what was seen while the report was kept waiting
+    let isHeld := l.op.length = 3 ∧ l.op.getLast? = some "held"
+    let implSem := if isHeld then l.obs.headD "" else impl
+    if implSem = "leaked" ∨ implSem = "stuck" then
       -- the harness gave up waiting: the permit of an ended holder never came back / a blocked call never resumed
       r := r.violation s.idx l.idx s!"kind={kind} op=[{joinSp l.op}] impl=[{impl}] capacity leaked: the permit of an ended holder was not released"
     -- TimeoutLimit with parked borrowers (explicit Cond model, ModelTL): `bwait` = Borrow with a long timeout
@@ -232,7 +293,7 @@ def runSeq (r : Report) (s : Section) (kind : String) (n : Nat) : Report := Id.r
     | none => r := r.mismatch s.idx l.idx "bad-op" (joinSp l.op)
     | some (sem', exp, br) =>
       r := r.addCover s!"{kind}-{br}"
-      if exp ≠ impl then r := r.mismatch s.idx l.idx exp impl
+      if exp ≠ implSem then r := r.mismatch s.idx l.idx exp impl
       if br = "bwait-parks" then waiters := waiters + 1
       if br = "return-wakes-parked-borrower" then waiters := waiters - 1
       sem := sem'
@@ -255,6 +316,14 @@ def runSeq (r : Report) (s : Section) (kind : String) (n : Nat) : Report := Id.r
         | some msg => r := r.violation s.idx l.idx s!"kind={kind} op=[{joinSp l.op}] impl=[{impl}] {msg}"
         | none => pure ()
         mon := mon.step ev
+      if isHeld then
+        match kv? l.obs "slot", kv? l.obs "wait" with
+        | some "held", some "returns" =>
+          r := r.violation s.idx l.idx s!"kind={kind} op=[{joinSp l.op}] impl=[{impl}] Wait returned while the slot of a task that ended by panic was still taken (its panic report was being written): Done before release — capacity leaked: free={n - 1 - mon.held} outstanding={mon.held} n={n} at the instant Wait returns"
+        | some "held", _ =>
+          r := r.violation s.idx l.idx s!"kind={kind} op=[{joinSp l.op}] impl=[{impl}] the permit of a task that ended by panic is given back only after its panic report has been written: capacity not available after the holder finished (unbounded with a slow log writer)"
+        | some "free", some w => r := r.addCover s!"{kind}-panic-report-held-slot-free-wait-{w}"
+        | _, _ => if l.obs.contains "report=none" then r := r.addCover s!"{kind}-panic-report-none"
       if l.op = ["wait"] then
         match l.obs with
         | "returns-early" :: _ => r := r.violation s.idx l.idx s!"kind={kind} Wait returned while admitted tasks were still running ({impl})"
@@ -272,6 +341,8 @@ def parseHEv (tok : String) : Option (HEv × Bool) :=
   | '+' :: rest => (String.ofList rest).toNat?.map fun t => (.enter t, false)
   | '-' :: rest => (String.ofList rest).toNat?.map fun t => (.exit t, false)
   | '!' :: rest => (String.ofList rest).toNat?.map fun t => (.exit t, true)
+  | '#' :: rest => (String.ofList rest).toNat?.map fun t => (.exit t, true)
+  | '~' :: rest => (String.ofList rest).toNat?.map fun t => (.exit t, true)
   | 'x' :: rest => (String.ofList rest).toNat?.map fun t => (.refused t, false)
   | 'e' :: rest => (String.ofList rest).toNat?.map fun t => (.retErr t, false)
   | _ => none
@@ -321,7 +392,9 @@ def runHistory (r : Report) (sec line : Nat) (kind : String) (n : Nat) (obs : Li
         | .enter _ => enters := enters + 1
         | .refused _ => refusals := refusals + 1
         | _ => pure ()
-        if pan then panics := panics + 1
+        if pan then
+          panics := panics + 1
+          r := r.addCover s!"{kind}-conc-exit-{if tok.startsWith "#" then "panic-error-value" else if tok.startsWith "~" then "goexit" else "panic-string-value"}"
         let (m', v) := m.step ev
         m := m'
         match v with
@@ -389,6 +462,19 @@ def runConc (r : Report) (s : Section) (kind : String) (n : Nat) : Report := Id.
         r := r.violation s.idx l.idx s!"kind={kind} the run did not terminate ({joinSp l.obs}): holders ended but their permits / wait-group counts never came back"
       else r := runHistory r s.idx l.idx kind n l.obs
     | some "rogue" => r := runRogue r s.idx l.idx kind n l.obs
+    | some "waitprobe" =>
+      -- TaskRunner: rounds of schedule / Wait / look at the slots at once (`sem_wait_means_free`: wg = 0 → used = 0)
+      if kind ≠ "runner" then r := r.mismatch s.idx l.idx "waitprobe only for kind=runner" (joinSp l.op)
+      else if l.obs.head? = some "stuck" ∨ l.obs.head? = some "leaked" then
+        r := r.violation s.idx l.idx s!"kind={kind} Wait does not return / slots never come back although every scheduled task has ended ({joinSp l.obs})"
+      else
+        match (kv? l.obs "rounds").bind (·.toNat?), (kv? l.obs "early").bind (·.toNat?),
+              (kv? l.obs "worst").bind (·.toNat?), (kv? l.obs "busy").bind (·.toNat?) with
+        | some rounds, some early, some worst, some busy =>
+          r := r.addCover "runner-waitprobe-rounds" rounds
+          if early > 0 ∨ busy > 0 then
+            r := r.violation s.idx l.idx s!"kind={kind} Wait returned while up to {worst} slot(s) of finished tasks were still taken in {early} of {rounds} rounds, {busy} ScheduleImmediately calls refused although every task had been waited for (Done before release): capacity leaked: free={n - worst} after all holders finished, n={n}"
+        | _, _, _, _ => r := r.mismatch s.idx l.idx "rounds= early= worst= busy=" (joinSp l.obs)
     | _ => r := r.mismatch s.idx l.idx "bad-op" (joinSp l.op)
   return r
 
@@ -419,10 +505,25 @@ def runPoolSeq (r : Report) (s : Section) (limit maxAge : Nat) : Report := Id.ru
     r := { r with ops := r.ops + 1 }
     let impl := joinSp l.obs
     let mut evs : List PEv := []
-    match l.op with
+    -- `getdpanic`: destroy panics if Get calls it for the head; otherwise the call is a plain `get`
+    let op := if l.op = ["getdpanic"] ∧ (p.getDestroyPanics now).2 = none then ["get"] else l.op
+    if l.op = ["getdpanic"] ∧ op = ["get"] then r := r.addCover "pool-destroy-panic-armed-but-not-called"
+    match op with
+    | ["getdpanic"] =>
+      let (p', x) := p.getDestroyPanics now
+      r := r.addCover "pool-destroy-panics-count-stays-right"
+      let exp := s!"dpanicked destroyed={csv x.toList}"
+      if exp ≠ impl then r := r.mismatch s.idx l.idx exp impl
+      p := p'
+      match l.obs with
+      | ["dpanicked", ds] =>
+        match obsDestroyed ds with
+        | some dl => evs := dl.map PEv.destroy      -- the resource is gone (unlinked and uncounted); nothing handed out
+        | none => r := r.mismatch s.idx l.idx "parsable-observation" impl
+      | _ => pure ()                                -- the mismatch above names it
     | ["get"] | ["getw"] | ["getpanic"] =>
-      let keep := l.op = ["getw"]
-      let cpanic := l.op = ["getpanic"]
+      let keep := op = ["getw"]
+      let cpanic := op = ["getpanic"]
       let (p', res, panicked) := if cpanic then p.getCreatePanics now else ((p.get now).1, (p.get now).2, false)
       match res with
       | .got item fresh d =>
@@ -625,6 +726,14 @@ def projectRoute (s : Section) (rt : Nat) : Section :=
       | o :: r :: rest => if r.toNat? = some rt then some { l with op := o :: rest } else none
       | _ => none }
 
+/-- several Pools in one section: the lines of pool `i` plus EVERY `t+` line (the virtual clock is process-wide:
+time passes for all pools whichever instance the op was addressed to). -/
+def projectPool (s : Section) (i : Nat) : Section :=
+  { s with lines := s.lines.filterMap fun l =>
+      match l.op with
+      | o :: r :: rest => if r.toNat? = some i ∨ o = "t+" then some { l with op := o :: rest } else none
+      | _ => none }
+
 /-- no limit configured (middleware off or `MaxConns <= 0`): every request is admitted. -/
 def runUnlimited (r : Report) (s : Section) : Report := Id.run do
   let mut r := r
@@ -634,7 +743,8 @@ def runUnlimited (r : Report) (s : Section) : Report := Id.run do
     let impl := joinSp l.obs
     let exp := match l.op with
       | ["try"] => "ok"
-      | ["finish"] | ["finish", "panic"] => if inside > 0 then "ok" else "none"
+      | ["finish"] => if inside > 0 then "ok" else "none"
+      | ["finish", how] => if (exitOfHow how).isNone then "bad-op" else if inside > 0 then "ok" else "none"
       | ["probe"] => "free=unlimited"
       | _ => "bad-op"
     if l.op = ["try"] then inside := inside + 1
@@ -718,6 +828,7 @@ def runOptSeq (r : Report) (s : Section) (lib : String) : Report := Id.run do
       else
         let cls := optClass opts
         r := r.addCover s!"{lib}opts-{cls}"
+        r := r.addCover s!"{lib}opts-api-{(kv? l.op "api").getD "?"}"
         if opts.length ≥ 2 then r := r.addCover s!"{lib}opts-several-options-in-one-list"
         if opts.any (fun o => match o with | .withWorkers k => k < 1 | _ => false) then r := r.addCover s!"{lib}opts-withworkers-below-min"
         for b in before.eraseDups do
@@ -740,7 +851,7 @@ def runOptSeq (r : Report) (s : Section) (lib : String) : Report := Id.run do
 
 def parseNs (s : String) : Option (List Int) := (s.splitOn ",").mapM (·.toInt?)
 
-def semKinds : List String := ["limit", "tlimit", "runner", "maxconns", "mr", "fx", "wgroup"]
+def semKinds : List String := ["limit", "tlimit", "runner", "maxconns", "mr", "fx", "wgroup", "barrier"]
 
 def runSection (r : Report) (s : Section) : Report :=
   let kind := kvStr s.cfg "kind"
@@ -752,6 +863,15 @@ def runSection (r : Report) (s : Section) : Report :=
     match (kv? s.cfg "ns").bind parseNs with
     | none => r.mismatch s.idx 0 "cfg ns=<n0>,<n1>,…" (joinSp s.cfg)
     | some ns =>
+      if kind = "pool" ∧ mode = "seq" then Id.run do
+        -- several Pools alive at once (equal and different limits, one clock): each against its own limit
+        let mut r := r.addCover "pool-several-instances-in-one-section"
+        if ns.eraseDups.length < ns.length then r := r.addCover "pool-instances-with-equal-limit"
+        for (n, i) in ns.zipIdx do
+          if n ≤ 0 then r := r.mismatch s.idx 0 "n >= 1" (joinSp s.cfg)
+          else r := runPoolSeq r (projectPool s i) n.toNat (kvNat s.cfg "maxage" 0)
+        return r
+      else
       if mode ≠ "seq" ∨ !(semKinds.contains kind) then r.mismatch s.idx 0 "ns= only for sequential semaphore kinds" (joinSp s.cfg)
       else Id.run do
         let mut r := r.addCover s!"{kind}-several-instances-in-one-section"
